@@ -481,3 +481,225 @@ Lemma C17_empty_is_all_defaults_proof :
   load InEmpty = load (InDoc [MApiVersion (config_group ++ "/v1"); MKind config_kind])
   /\ load InEmpty = Some (Loaded "privileged" "latest" "privileged" "latest" "privileged" "latest" [] [] []).
 Proof. split; vm_compute; reflexivity. Qed.
+
+(** * Validation *)
+
+Lemma is_nil_level_errs path s : is_nil (level_errs path s) = is_some (spec_level_of s).
+Proof. unfold level_errs. rewrite parse_level_spec. destruct (spec_level_of s); reflexivity. Qed.
+
+Lemma is_nil_version_errs path s : is_nil (version_errs path s) = is_some (spec_version_of s).
+Proof. unfold version_errs. rewrite parse_version_spec. destruct (spec_version_of s); reflexivity. Qed.
+
+Lemma label_fmt_spec l :
+  label_fmt l
+  = negb (String.eqb l "") && all_chars (fun c => is_lower_alnum c || Ascii.eqb c "-"%char) l
+    && match l with String c _ => is_lower_alnum c | _ => false end
+    && match last_char l with Some c => is_lower_alnum c | None => false end.
+Proof.
+  destruct l as [|c r]; [reflexivity|].
+  unfold label_fmt. change (String.eqb (String c r) "") with false.
+  change (all_chars (fun c0 => is_lower_alnum c0 || Ascii.eqb c0 "-"%char)) with (all_chars is_label_char).
+  cbn [negb andb].
+  destruct (is_lower_alnum c); [|now rewrite Bool.andb_false_r].
+  now rewrite Bool.andb_true_r.
+Qed.
+
+Lemma is_dns_label_spec s : is_dns_label s = s_label s.
+Proof.
+  unfold is_dns_label, s_label. rewrite label_fmt_spec.
+  destruct (negb (String.eqb s "")), (Nat.leb (String.length s) 63); reflexivity.
+Qed.
+
+Lemma is_dns_subdomain_spec s : is_dns_subdomain s = s_subdomain s.
+Proof.
+  unfold is_dns_subdomain, s_subdomain. f_equal. apply forallb_ext. intros l. apply label_fmt_spec.
+Qed.
+
+Lemma forallb_not_mem_cons x seen r :
+  forallb (fun y => negb (mem y (x :: seen))) r
+  = negb (mem x r) && forallb (fun y => negb (mem y seen)) r.
+Proof.
+  induction r as [|y r IH]; [reflexivity|].
+  cbn [forallb]. rewrite IH. unfold mem. cbn [existsb]. rewrite (String.eqb_sym y x).
+  btauto.
+Qed.
+
+Lemma is_nil_validate_list path ok l : forall i seen,
+  is_nil (validate_list path ok l i seen)
+  = forallb ok l && s_unique l && forallb (fun x => negb (mem x seen)) l.
+Proof.
+  induction l as [|x r IH]; intros i seen; [reflexivity|].
+  cbn [validate_list forallb s_unique].
+  destruct (ok x); cbn [negb andb]; [|reflexivity].
+  destruct (mem x seen) eqn:E; cbn [negb andb is_nil].
+  - now rewrite Bool.andb_false_r.
+  - rewrite IH, forallb_not_mem_cons. btauto.
+Qed.
+
+Lemma is_nil_validate_list0 path ok l :
+  is_nil (validate_list path ok l 0 []) = forallb ok l && s_unique l.
+Proof.
+  rewrite is_nil_validate_list.
+  replace (forallb (fun x => negb (mem x [])) l) with true; [apply Bool.andb_true_r|].
+  symmetry. apply forallb_forall. reflexivity.
+Qed.
+
+Lemma is_nil_validate_config c : is_nil (validate_config c) = s_valid c.
+Proof.
+  unfold validate_config, s_valid.
+  rewrite !cf_is_nil_app, !is_nil_level_errs, !is_nil_version_errs, !is_nil_validate_list0.
+  rewrite (forallb_ext _ _ is_dns_label_spec), (forallb_ext _ _ is_dns_subdomain_spec).
+  btauto.
+Qed.
+
+Lemma C17_validate_iff_proof c : validate_config c = [] <-> s_valid c = true.
+Proof. rewrite <- is_nil_validate_config. symmetry. apply is_nil_true. Qed.
+
+(** * ToPolicy *)
+
+Definition lvl_of (s : string) : option level :=
+  if String.eqb s "" then None else let '(l, ok) := parse_level s in if ok then Some l else None.
+Definition ver_of (s : string) : option version :=
+  if String.eqb s "" then None else let '(v, ok) := parse_version s in if ok then Some v else None.
+
+Lemma to_policy_unfold c :
+  to_policy c =
+  match lvl_of (ld_enforce c), ver_of (ld_enforce_version c), lvl_of (ld_audit c), ver_of (ld_audit_version c),
+        lvl_of (ld_warn c), ver_of (ld_warn_version c) with
+  | Some el, Some ev, Some al, Some av, Some wl, Some wv => Some (Policy (LV el ev) (LV al av) (LV wl wv))
+  | _, _, _, _, _, _ => None
+  end.
+Proof. reflexivity. Qed.
+
+Lemma lvl_of_spec s l : spec_level_of s = Some l -> lvl_of s = Some l.
+Proof.
+  intros H. unfold lvl_of. destruct (String.eqb s "") eqn:E.
+  - apply String.eqb_eq in E. subst s. discriminate H.
+  - now rewrite parse_level_spec, H.
+Qed.
+
+Lemma ver_of_spec s v : spec_version_of s = Some v -> ver_of s = Some v.
+Proof.
+  intros H. unfold ver_of. destruct (String.eqb s "") eqn:E.
+  - apply String.eqb_eq in E. subst s. discriminate H.
+  - now rewrite parse_version_spec, H.
+Qed.
+
+Lemma is_some_true {A} (o : option A) : is_some o = true -> exists x, o = Some x.
+Proof. destruct o as [x|]; [now exists x|discriminate]. Qed.
+
+Lemma s_valid_six c : s_valid c = true ->
+  exists el ev al av wl wv,
+    spec_level_of (ld_enforce c) = Some el /\ spec_version_of (ld_enforce_version c) = Some ev /\
+    spec_level_of (ld_audit c) = Some al /\ spec_version_of (ld_audit_version c) = Some av /\
+    spec_level_of (ld_warn c) = Some wl /\ spec_version_of (ld_warn_version c) = Some wv.
+Proof.
+  unfold s_valid. rewrite !Bool.andb_true_iff.
+  intros [[[[[[[[[[[H1 H2] H3] H4] H5] H6] _] _] _] _] _] _].
+  destruct (is_some_true _ H1) as [el E1], (is_some_true _ H2) as [ev E2],
+           (is_some_true _ H3) as [al E3], (is_some_true _ H4) as [av E4],
+           (is_some_true _ H5) as [wl E5], (is_some_true _ H6) as [wv E6].
+  now exists el, ev, al, av, wl, wv.
+Qed.
+
+Lemma to_policy_valid c el ev al av wl wv :
+  spec_level_of (ld_enforce c) = Some el -> spec_version_of (ld_enforce_version c) = Some ev ->
+  spec_level_of (ld_audit c) = Some al -> spec_version_of (ld_audit_version c) = Some av ->
+  spec_level_of (ld_warn c) = Some wl -> spec_version_of (ld_warn_version c) = Some wv ->
+  to_policy c = Some (Policy (LV el ev) (LV al av) (LV wl wv)).
+Proof.
+  intros E1 E2 E3 E4 E5 E6. rewrite to_policy_unfold.
+  now rewrite (lvl_of_spec _ _ E1), (ver_of_spec _ _ E2), (lvl_of_spec _ _ E3), (ver_of_spec _ _ E4),
+              (lvl_of_spec _ _ E5), (ver_of_spec _ _ E6).
+Qed.
+
+Lemma C17_validate_proof c :
+  P17_validate c (List.length (validate_config c))
+               (if is_nil (validate_config c) then to_policy c else None) = true.
+Proof.
+  unfold P17_validate. rewrite cf_length_is_nil, is_nil_validate_config, Bool.eqb_reflx.
+  cbn [andb]. destruct (s_valid c) eqn:V; [|reflexivity].
+  destruct (s_valid_six c V) as (el & ev & al & av & wl & wv & E1 & E2 & E3 & E4 & E5 & E6).
+  rewrite (to_policy_valid c _ _ _ _ _ _ E1 E2 E3 E4 E5 E6), E1, E2, E3, E4, E5, E6.
+  unfold imp_valid. cbn [negb orb]. apply policy_eqb_refl.
+Qed.
+
+Lemma C17_chain_proof c : validate_config c = [] ->
+  exists p, to_policy c = Some p /\ policy_to_evaluate [] p = (p, []) /\
+    fst (parse_level (ld_enforce c)) = lv_level (enforce p) /\
+    fst (parse_version (ld_enforce_version c)) = lv_version (enforce p).
+Proof.
+  intros H. apply C17_validate_iff_proof in H.
+  destruct (s_valid_six c H) as (el & ev & al & av & wl & wv & E1 & E2 & E3 & E4 & E5 & E6).
+  exists (Policy (LV el ev) (LV al av) (LV wl wv)).
+  split; [now apply to_policy_valid|]. split; [reflexivity|].
+  rewrite parse_level_spec, parse_version_spec, E1, E2. split; reflexivity.
+Qed.
+
+(** * Where the errors are reported *)
+
+Lemma In_level_errs p s e : In e (level_errs p s) -> e = (p, 0, Invalid).
+Proof. unfold level_errs. destruct (snd (parse_level s)); [intros []|]. intros [H|[]]. now symmetry. Qed.
+Lemma In_version_errs p s e : In e (version_errs p s) -> e = (p, 0, Invalid).
+Proof. unfold version_errs. destruct (snd (parse_version s)); [intros []|]. intros [H|[]]. now symmetry. Qed.
+
+Lemma In_validate_list path ok l : forall i0 seen p i k,
+  In (p, i, k) (validate_list path ok l i0 seen) -> p = path /\ i0 <= i < i0 + List.length l.
+Proof.
+  induction l as [|x r IH]; intros i0 seen p i k H; [destruct H|].
+  cbn [validate_list] in H. cbn [List.length].
+  destruct (negb (ok x)).
+  - destruct H as [H|H]; [inversion H; subst; split; [reflexivity|lia]|].
+    apply IH in H. destruct H as [Hp Hi]. split; [exact Hp|lia].
+  - destruct (mem x seen).
+    + destruct H as [H|H]; [inversion H; subst; split; [reflexivity|lia]|].
+      apply IH in H. destruct H as [Hp Hi]. split; [exact Hp|lia].
+    + apply IH in H. destruct H as [Hp Hi]. split; [exact Hp|lia].
+Qed.
+
+Lemma C17_errors_located_proof c path i k : In (path, i, k) (validate_config c) ->
+  (i = 0 /\ In path ["defaults.enforce"; "defaults.enforce-version"; "defaults.warn"; "defaults.warn-version"; "defaults.audit"; "defaults.audit-version"])
+  \/ (path = "exemptions.namespaces" /\ i < List.length (ld_namespaces c))
+  \/ (path = "exemptions.runtimeClasses" /\ i < List.length (ld_runtimeclasses c))
+  \/ (path = "exemptions.usernames" /\ i < List.length (ld_usernames c)).
+Proof.
+  unfold validate_config. intros H.
+  repeat (apply in_app_or in H; destruct H as [H|H]);
+    try (apply In_level_errs in H; inversion H; subst; left; split; [reflexivity|cbn [In]; tauto]);
+    try (apply In_version_errs in H; inversion H; subst; left; split; [reflexivity|cbn [In]; tauto]).
+  - apply In_validate_list in H. destruct H as [Hp Hi]. right. left. split; [exact Hp|lia].
+  - apply In_validate_list in H. destruct H as [Hp Hi]. right. right. left. split; [exact Hp|lia].
+  - apply In_validate_list in H. destruct H as [Hp Hi]. right. right. right. split; [exact Hp|lia].
+Qed.
+
+(** * Examples *)
+
+(** without [well_tagged] the equivalence fails: a member presented as unknown but
+    named "defaults" is rejected by strict decoding, while the specification,
+    which looks at key names only, accepts the document *)
+Lemma C17_accept_iff_needs_hyp_proof :
+  let d := [MUnknown "defaults"; MApiVersion (config_group ++ "/v1"); MKind config_kind] in
+  ~ well_tagged d /\ is_some (load (InDoc d)) = false /\ s_acceptable d = true
+  /\ P17_load (InDoc d) (load (InDoc d)) = false.
+Proof. cbv zeta. split; [intros H; vm_compute in H; discriminate H|]. vm_compute. auto. Qed.
+
+Definition c17_example_doc : list member :=
+  [MExemptions [("namespaces", ["kube-system"; "kube-system"; "Bad"])];
+   MKind "PodSecurityConfiguration";
+   MDefaults [("warn-version", "v1.25"); ("enforce", "baseline")];
+   MApiVersion "pod-security.admission.config.k8s.io/v1beta1"].
+Definition c17_example_loaded : loaded :=
+  Loaded "baseline" "latest" "privileged" "latest" "privileged" "v1.25"
+         [] ["kube-system"; "kube-system"; "Bad"] [].
+
+Lemma C17_example_proof :
+  well_tagged c17_example_doc
+  /\ load (InDoc c17_example_doc) = Some c17_example_loaded
+  /\ validate_config c17_example_loaded
+     = [("exemptions.namespaces", 1, Duplicate); ("exemptions.namespaces", 2, Invalid)]
+  /\ validate_config (Loaded "baseline" "latest" "privileged" "latest" "privileged" "v1.25" [] ["kube-system"] []) = []
+  /\ to_policy c17_example_loaded
+     = Some (Policy (LV Baseline Latest) (LV Privileged Latest) (LV Privileged (V 1 25)))
+  /\ load (InDoc [MApiVersion "pod-security.admission.config.k8s.io/v1"; MKind "PodSecurityConfiguration";
+                  MDefaults [("enforce", "baseline"); ("enforce", "restricted")]]) = None.
+Proof. repeat split; vm_compute; reflexivity. Qed.
